@@ -3,6 +3,7 @@ T = "monkeytype/typing.py"
 E = "monkeytype/encoding.py"
 S = "monkeytype/db/sqlite.py"
 TR = "monkeytype/tracing.py"
+CF = "monkeytype/config.py"
 MUTANTS = {
     "c04_required_any": {
         "props": ["C04"],
@@ -189,5 +190,25 @@ MUTANTS = {
     "c18_off_by_one_rate": {
         "props": ["C18"],
         "edits": [(TR, "random.randrange(self.sample_rate) != 0:", "random.randrange(self.sample_rate + 1) != 0:")],
+    },
+    "c17_no_purelib": {
+        "props": ["C17"],
+        "edits": [(CF, 'for n in ["stdlib", "purelib", "platlib"]', 'for n in ["stdlib"]')],
+    },
+    "c17_main_logged": {
+        "props": ["C17"],
+        "edits": [("monkeytype/db/base.py", '        if not trace.func.__module__ == "__main__":\n            self.traces.append(trace)', '        self.traces.append(trace)')],
+    },
+    "c17_no_resolve": {
+        "props": ["C17"],
+        "edits": [(CF, "    filename = pathlib.Path(code.co_filename).resolve()", "    filename = pathlib.Path(code.co_filename).absolute()")],
+    },
+    "c17_allow_substring": {
+        "props": ["C17"],
+        "edits": [(CF, "return any(m == filename.stem or m in filename.parts for m in trace_modules)", "return any(m == filename.stem or m in str(filename) for m in trace_modules)")],
+    },
+    "c17_synthetic_admitted": {
+        "props": ["C17"],
+        "edits": [(CF, '    if not code.co_filename or code.co_filename[0] == "<":', '    if not code.co_filename:')],
     },
 }
